@@ -11,7 +11,7 @@ pub fn prop() -> Prop {
     Prop {
         id: "C15",
         level: "model_checking",
-        rule: "values = 30 (all types, absent, empty string, strings with quote, comma, CR, LF, tab, blanks at both ends, non-ASCII, strings spelled like keywords and numbers, 64-bit and fractional numbers, nested values holding such strings); csv: every row of 1..2 selections (3 selections: quick a slice of 2 700 rows, thorough all 27 000) over the values x 3 sets of selection names (plain; with blank, comma, quote; non-ASCII) and multi-record inputs; text: every row of 1..2 selections over 24 values with an unambiguous spelling x every option set within 3 deviations (thorough: 4) of the defaults over items separator(4), string prefix/postfix(3), null/true/false keywords(3,2,2), missing-value keyword(3), --headers(2), escape sequences(3), row separator(3); non-trivial = the row holds a string with a special character, a nested value, an absent value or a keyword look-alike; distinct by construction",
+        rule: "values = 30 (all types, absent, empty string, strings with quote, comma, CR, LF, tab, blanks at both ends, non-ASCII, strings spelled like keywords and numbers, 64-bit and fractional numbers, nested values holding such strings); csv: every row of 1..2 selections (3 selections: quick a slice of 2 700 rows, thorough all 27 000) over the values x 4 sets of selection names (plain; with blank, comma, quote; non-ASCII; two selections sharing a name) and multi-record inputs; text: every row of 1..2 selections over 24 values with an unambiguous spelling x every option set within 3 deviations (thorough: 4) of the defaults over items separator(4), string prefix/postfix(3), null/true/false keywords(3,2,2), missing-value keyword(3), --headers(2), escape sequences(3), row separator(3); non-trivial = the row holds a string with a special character, a nested value, an absent value or a keyword look-alike; distinct by construction",
         explanation: "csv output is read back by an independent RFC 4180 reader (skip-initial-space): header = the names in order, N fields per record, each field recovered by type (string content, decimal spelling by exact value, True/False/null, concise JSON re-read by the strict reader and free of insignificant whitespace); text output is compared byte for byte with the rendering the option help pins (prefix + escaped characters + postfix, keywords, separators)",
         assumptions: COMMON_ASSUMPTIONS.to_vec(),
         guards: vec!["quote-in-string", "comma-in-string", "newline-in-string", "absent-field", "nested-with-special-string", "header-with-special-name", "escape-sequence-applied", "missing-keyword-printed", "text-headers", "three-fields"],
@@ -56,7 +56,7 @@ const VALS: [Option<&str>; 30] = [
     Some("1e300"),
 ];
 
-const NAMES: [[&str; 3]; 3] = [["a", "b", "c"], ["first name", "x,y", "q\"r"], ["é", "ñame", "日本"]];
+const NAMES: [[&str; 3]; 4] = [["a", "b", "c"], ["first name", "x,y", "q\"r"], ["é", "ñame", "日本"], ["v", "v", "w"]];
 
 fn record(idx: &[usize]) -> String {
     let mut s = String::from("{");
@@ -162,10 +162,10 @@ fn csv_part(ctx: &mut Ctx) {
                 continue;
             }
             for (ni, names) in NAMES.iter().enumerate() {
-                if n == 3 && quick && !(ni == 1 && matches!(idx[0], 0 | 15 | 25)) {
+                if n == 3 && quick && !((ni == 1 || ni == 3) && matches!(idx[0], 0 | 15 | 25)) {
                     continue;
                 }
-                if n == 3 && ni > 0 && idx[0] % 5 != 0 {
+                if n == 3 && ni > 0 && ni != 3 && idx[0] % 5 != 0 {
                     continue;
                 }
                 let mut args: Vec<String> = vec!["--output-style=csv".into()];
